@@ -41,7 +41,7 @@ def parts(s): return [p.strip() for p in s.split(' ; ')]
 def proj_c16(c):
     """open: the three results; seg: recreated flag, image without the four padding bytes of the
     record copy (an input of the model, taken from the observation), fresh-reader result"""
-    if kind(c) in ('open', 'open0'):
+    if kind(c) in ('open', 'open0', 'openu'):
         return (parts(c.impl), parts(c.model))
     def seg(a):
         t = a.split()
@@ -75,7 +75,7 @@ PROPS_HEADER = {
     level_note='Trusted: Lean kernel + standard axioms; POSIX file/mmap behaviour is modelled as observed, correspondence is differential testing on real files; an address-space limit (ulimit -v) adds the outcome ENOMEM from mmap (theorems open_ok_iff_lim / open_mmap_refused), which the runs do not exercise.',
     pre='c17',
     gens=lambda seed, th: [['hdr-open', seed, 60000 if th else 4000], ['hdr-seg', seed, 60000 if th else 4000], ['hdr-snap', seed, 40000 if th else 3000], ['crashgrid']],
-    relevant=lambda c: kind(c) in ('open', 'open0', 'seg', 'snap', 'crashpt'),
+    relevant=lambda c: kind(c) in ('open', 'open0', 'openu', 'seg', 'snap', 'crashpt'),
     project=proj_c16,
     nontrivial=lambda c: (kind(c) == 'open' and bool(c.tags & {'orderVisible', 'size<72', 'size<16', 'ver0', 'gen0', 'badMagic', 'shortHeader', 'dir', 'missing', 'sizeMax'}))
                          or (kind(c) == 'seg' and bool(c.tags & {'recreated', 'takenOver'}) and not ({'missing'} & c.tags)),
